@@ -121,7 +121,7 @@ func cmdShard(args []string) {
 		exe, _ := os.Executable()
 		for h := 0; h < *hist; h++ {
 			r := sd.NewRunner(cfg, *seed*1000+int64(h), tw, *dir)
-			fo := sd.FaultOpts{Batches: *batches, MaxFaults: *maxFaults, Kills: *kills, Exe: exe, Rank: *rank, Sample: *sample, MaxBatch: *maxBatch}
+			fo := sd.FaultOpts{Batches: *batches, MaxFaults: *maxFaults, Kills: *kills, Exe: exe, Rank: *rank, Sample: *sample, MaxBatch: *maxBatch, BigInsert: *insertOnly}
 			if err := r.RunFaultHistory(h, fo); err != nil {
 				fmt.Fprintln(os.Stderr, "driver error:", err)
 				os.Exit(2)
